@@ -21,21 +21,38 @@ Definition two64 : N := 18446744073709551616.
 Definition wadd (a b : N) : N := (a + b) mod two64.          (* a + b on uint64 *)
 Definition wpred (a : N) : N := (a + (two64 - 1)) mod two64. (* a - 1 on uint64: 0 - 1 = 2^64-1 *)
 
+Definition clock_max : N := 9223372036854775808.              (* 2^63: the slot clock stays below it *)
+
 Definition slots_per_epoch : N := 32.
 Definition epoch_of (slot : N) : N := slot / slots_per_epoch. (* EstimatedEpochAtSlot *)
 
-Definition gap_att : N := min_sp_attestation_epoch_gap.
-Definition gap_prop : N := min_sp_proposal_slot_gap.
+(* ---- what is read from the source on every run (coq/Gen/SlashingConsts.v) ---------------------- *)
+
+(* gap_att / gap_prop: minSPAttestationEpochGap / minSPProposalSlotGap.
+   att_empty_err / prop_empty_err: whether Retrieve* returns an error for a record whose stored
+   value has length zero.  Both functions mean to, but build the error with errors.Wrap(err, ..)
+   while err is nil - and that is nil.  The flags are false while that is so. *)
+Record cfg := { gap_att : N; gap_prop : N; att_empty_err : bool; prop_empty_err : bool }.
+
+Definition source_cfg : cfg :=
+  {| gap_att := min_sp_attestation_epoch_gap; gap_prop := min_sp_proposal_slot_gap;
+     att_empty_err := att_empty_value_is_error; prop_empty_err := prop_empty_value_is_error |}.
 
 (* ---- persisted state --------------------------------------------------------------------------- *)
 
-(* A database record: absent, present but unreadable (empty / undecodable value), or a value. *)
+(* A database record: absent; present but Retrieve* returns an error (undecodable value, or a
+   zero-length value once that is an error); present with a zero-length value for which
+   RetrieveHighestAttestation returns (nil, found=true, nil); or a value.
+   A zero-length PROPOSAL record, while that is not an error, is returned as (0, found=true, nil),
+   which no caller can tell from a stored slot 0: it is [RVal 0] (see [OCorrupt]). *)
 Inductive rcd (A : Type) : Type :=
 | RMissing
 | RBad
+| REmpty
 | RVal (a : A).
 Arguments RMissing {A}.
 Arguments RBad {A}.
+Arguments REmpty {A}.
 Arguments RVal {A} a.
 
 (* att:  highest attestation (source epoch, target epoch)   db prefix signer_data-highest_att-
@@ -47,10 +64,11 @@ Record store := { att : rcd (N * N); prop : rcd N; acct : bool }.
 (* clock: EstimatedCurrentSlot of the node's beacon network.
    horizon: the highest epoch the third-party far-future guard (which reads the wall clock) lets
    through; it only ever adds refusals. *)
-Record state := { st : store; clock : N; horizon : N }.
+Record state := { st : store; clock : N; horizon : N; conf : cfg }.
 
 Definition empty_store : store := {| att := RMissing; prop := RMissing; acct := false |}.
-Definition init (c h : N) : state := {| st := empty_store; clock := c; horizon := h |}.
+Definition init (g : cfg) (c h : N) : state :=
+  {| st := empty_store; clock := c; horizon := h; conf := g |}.
 
 (* ---- environment of one call ------------------------------------------------------------------- *)
 
@@ -64,6 +82,7 @@ Inductive err :=
 | EFar         (* far-future guard *)
 | EReadErr     (* protection record could not be read *)
 | ENoRecord    (* found = false *)
+| ENilRecord   (* found = true but no data: "highest attestation data is nil" *)
 | ESlashable   (* HighestAttestationVote / HighestProposalVote *)
 | EZeroSlot.   (* proposal slot 0 *)
 
@@ -77,13 +96,24 @@ Inductive outcome :=
 | Refused (e : err)    (* call returned an error, nothing signed *)
 | Crashed.             (* the process died inside the call (see [cut]); nothing signed *)
 
-(* Retrieve*: None = error, Some None = found=false, Some (Some v). *)
-Definition read {A} (e : env) (r : rcd A) : option (option A) :=
-  if rfail e then None else
+(* Retrieve*: error / found=false / found=true without data / found=true with data *)
+Inductive rd (A : Type) : Type :=
+| RdErr
+| RdNotFound
+| RdNil
+| RdVal (a : A).
+Arguments RdErr {A}.
+Arguments RdNotFound {A}.
+Arguments RdNil {A}.
+Arguments RdVal {A} a.
+
+Definition read {A} (e : env) (r : rcd A) : rd A :=
+  if rfail e then RdErr else
   match r with
-  | RMissing => Some None
-  | RBad => None
-  | RVal v => Some (Some v)
+  | RMissing => RdNotFound
+  | RBad => RdErr
+  | REmpty => RdNil
+  | RVal v => RdVal v
   end.
 
 (* ---- database writes, in the order the code issues them --------------------------------------- *)
@@ -128,38 +158,32 @@ Definition exec (s : store) (c : option N) (p : list write * outcome) : store * 
 (* ---- BumpSlashingProtection --------------------------------------------------------------------- *)
 
 (* computeMinimalAttestationSP: target = epoch + gap, source = target - 1 (wraps at target 0) *)
-Definition minimal_att (epoch : N) : N * N :=
-  let t := wadd epoch gap_att in (wpred t, t).
+Definition minimal_att (g : cfg) (epoch : N) : N * N :=
+  let t := wadd epoch (gap_att g) in (wpred t, t).
 
 (* updateHighestAttestation *)
-Definition bump_att (e : env) (s : store) (c : N) : list write * option err :=
+Definition bump_att (g : cfg) (e : env) (s : store) (c : N) : list write * option err :=
+  let '(ms, mt) := minimal_att g (epoch_of c) in
   match read e (att s) with
-  | None => ([], Some EReadErr)
-  | Some r =>
-      let '(ms, mt) := minimal_att (epoch_of c) in
-      match r with
-      | Some (hs, ht) => if (ms <=? hs) || (mt <=? ht) then ([], None) else ([WAtt ms mt], None)
-      | None => ([WAtt ms mt], None)
-      end
+  | RdErr => ([], Some EReadErr)
+  | RdVal (hs, ht) => if (ms <=? hs) || (mt <=? ht) then ([], None) else ([WAtt ms mt], None)
+  | RdNotFound | RdNil => ([WAtt ms mt], None)      (* "found && retrievedHighAtt != nil" is false *)
   end.
 
 (* updateHighestProposal; SaveHighestProposal refuses slot 0 *)
-Definition bump_prop (e : env) (s : store) (c : N) : list write * option err :=
+Definition bump_prop (g : cfg) (e : env) (s : store) (c : N) : list write * option err :=
+  let m := wadd c (gap_prop g) in
+  let save := if m =? 0 then ([], Some EZeroSlot) else ([WProp m], None) in
   match read e (prop s) with
-  | None => ([], Some EReadErr)
-  | Some r =>
-      let m := wadd c gap_prop in
-      let save := if m =? 0 then ([], Some EZeroSlot) else ([WProp m], None) in
-      match r with
-      | Some p => if negb (p =? 0) && (m <=? p) then ([], None) else save
-      | None => save
-      end
+  | RdErr => ([], Some EReadErr)
+  | RdVal p => if negb (p =? 0) && (m <=? p) then ([], None) else save
+  | RdNotFound | RdNil => save
   end.
 
-Definition bump (e : env) (s : store) (c : N) : list write * option err :=
-  match bump_att e s c with
+Definition bump (g : cfg) (e : env) (s : store) (c : N) : list write * option err :=
+  match bump_att g e s c with
   | (w1, Some x) => (w1, Some x)
-  | (w1, None) => let '(w2, r) := bump_prop e s c in (w1 ++ w2, r)
+  | (w1, None) => let '(w2, r) := bump_prop g e s c in (w1 ++ w2, r)
   end.
 
 (* ---- the slashing checks (NormalProtection) ---------------------------------------------------- *)
@@ -167,18 +191,20 @@ Definition bump (e : env) (s : store) (c : N) : list write * option err :=
 (* IsSlashableAttestation *)
 Definition check_att (e : env) (s : store) (src tgt : N) : option err :=
   match read e (att s) with
-  | None => Some EReadErr
-  | Some None => Some ENoRecord
-  | Some (Some (hs, ht)) => if (src <? hs) || (tgt <=? ht) then Some ESlashable else None
+  | RdErr => Some EReadErr
+  | RdNotFound => Some ENoRecord
+  | RdNil => Some ENilRecord
+  | RdVal (hs, ht) => if (src <? hs) || (tgt <=? ht) then Some ESlashable else None
   end.
 
 (* IsSlashableProposal *)
 Definition check_prop (e : env) (s : store) (sl : N) : option err :=
   if sl =? 0 then Some EZeroSlot else
   match read e (prop s) with
-  | None => Some EReadErr
-  | Some None => Some ENoRecord
-  | Some (Some p) => if p <? sl then None else Some ESlashable
+  | RdErr => Some EReadErr
+  | RdNotFound => Some ENoRecord
+  | RdNil => None                                    (* would read as slot 0, and sl > 0 here *)
+  | RdVal p => if p <? sl then None else Some ESlashable
   end.
 
 (* UpdateHighestAttestation, reached only after check_att passed (so the record is a value) *)
@@ -203,6 +229,11 @@ Definition far_slot (h sl : N) : bool := (h * slots_per_epoch + (slots_per_epoch
 
 (* ---- operations --------------------------------------------------------------------------------- *)
 
+Inductive ckind :=
+| CAttGarbage   (* attestation record: undecodable value *)
+| CAttEmpty     (* attestation record: zero-length value *)
+| CPropEmpty.   (* proposal record: zero-length value *)
+
 Inductive op :=
 | OTick (d : N)                          (* the clock advances by d slots *)
 | ORestart                               (* new signer object over the same database *)
@@ -213,7 +244,7 @@ Inductive op :=
 | OSignBlk (sl : N) (e : env)            (* SignBeaconObject, DomainProposer *)
 | OCheckAtt (src tgt : N) (e : env)      (* IsAttestationSlashable *)
 | OCheckBlk (sl : N) (e : env)           (* IsBeaconBlockSlashable *)
-| OCorrupt (which_att : bool).           (* the record's value becomes unreadable *)
+| OCorrupt (k : ckind).                  (* a record's value is damaged behind the signer's back *)
 
 Definition plan (x : state) (o : op) : list write * outcome :=
   let s := st x in
@@ -221,14 +252,14 @@ Definition plan (x : state) (o : op) : list write * outcome :=
   | OTick _ | ORestart | OCorrupt _ => ([], Done)
   | OAdd e =>
       if acct s then ([], Done) else
-      match bump e s (clock x) with
+      match bump (conf x) e s (clock x) with
       | (ws, Some r) => (ws, Refused r)
       | (ws, None) => (ws ++ [WAcctRec; WWalletAdd], Done)
       end
   | ORemove e =>
       if acct s then ([WDelAtt; WDelProp; WDelAcct; WWalletDel], Done) else ([], Done)
   | OReact e =>
-      match bump e s (clock x) with
+      match bump (conf x) e s (clock x) with
       | (ws, Some r) => (ws, Refused r)
       | (ws, None) => (ws, Done)
       end
@@ -262,17 +293,24 @@ Definition op_cut (o : op) : option N :=
 Record obs := { o_out : outcome; o_store : store }.
 
 Definition with_store (x : state) (s : store) : state :=
-  {| st := s; clock := clock x; horizon := horizon x |}.
+  {| st := s; clock := clock x; horizon := horizon x; conf := conf x |}.
+
+Definition corrupt (g : cfg) (s : store) (k : ckind) : store :=
+  match k with
+  | CAttGarbage => {| att := RBad; prop := prop s; acct := acct s |}
+  | CAttEmpty =>
+      {| att := if att_empty_err g then RBad else REmpty; prop := prop s; acct := acct s |}
+  | CPropEmpty =>
+      {| att := att s; prop := if prop_empty_err g then RBad else RVal 0; acct := acct s |}
+  end.
 
 Definition step (x : state) (o : op) : state * obs :=
   match o with
   | OTick d =>
-      let x' := {| st := st x; clock := clock x + d; horizon := horizon x |} in
+      let x' := {| st := st x; clock := clock x + d; horizon := horizon x; conf := conf x |} in
       (x', {| o_out := Done; o_store := st x |})
-  | OCorrupt a =>
-      let s := st x in
-      let s' := if a then {| att := RBad; prop := prop s; acct := acct s |}
-                else {| att := att s; prop := RBad; acct := acct s |} in
+  | OCorrupt k =>
+      let s' := corrupt (conf x) (st x) k in
       (with_store x s', {| o_out := Done; o_store := s' |})
   | _ =>
       let '(s', out) := exec (st x) (op_cut o) (plan x o) in
@@ -310,7 +348,7 @@ Definition conflictb (a b : sg) : bool :=
   | _, _ => false
   end.
 
-(* The property's quantifier: the clock is a uint64 and only moves forward; an attestation request
+(* The property's quantifier: the clock only moves forward and stays below 2^63 slots; an attestation request
    has source < target (the duty's value check) and a target epoch not beyond the clock's epoch; a
    block request's slot is not beyond the clock.  [c] is the clock before the first operation.
    The two boolean switches exist only to state the companion observations (what happens when one
@@ -318,7 +356,7 @@ Definition conflictb (a b : sg) : bool :=
 Fixpoint wf_gen (clock_bound src_lt_tgt : bool) (c : N) (ops : list op) : Prop :=
   match ops with
   | [] => True
-  | OTick d :: tl => c + d < two64 /\ wf_gen clock_bound src_lt_tgt (c + d) tl
+  | OTick d :: tl => c + d < clock_max /\ wf_gen clock_bound src_lt_tgt (c + d) tl
   | OSignAtt s t _ :: tl =>
       (src_lt_tgt = true -> s < t) /\ (clock_bound = true -> t <= epoch_of c) /\
       t < two64 /\ s < two64 /\ wf_gen clock_bound src_lt_tgt c tl
@@ -329,11 +367,20 @@ Fixpoint wf_gen (clock_bound src_lt_tgt : bool) (c : N) (ops : list op) : Prop :
 
 Definition wf := wf_gen true true.
 
-(* boolean version, for the examples *)
+(* Damage to a record is inside the histories considered as long as the signer can notice it.
+   A zero-length proposal record is returned as slot 0 while [prop_empty_err] is false: that
+   history is the subject of C04_damaged_record_*, not of the safety theorem. *)
+Definition damage_is_detectable (g : cfg) (ops : list op) : Prop :=
+  In (OCorrupt CPropEmpty) ops -> prop_empty_err g = true.
+
+(* The configuration does not make epoch + gap or slot + gap wrap. *)
+Definition cfg_ok (g : cfg) : Prop := gap_att g <= 4294967296 /\ gap_prop g <= 4294967296.
+
+(* boolean versions, for the examples *)
 Fixpoint wfb_gen (cb sl_ : bool) (c : N) (ops : list op) : bool :=
   match ops with
   | [] => true
-  | OTick d :: tl => (c + d <? two64) && wfb_gen cb sl_ (c + d) tl
+  | OTick d :: tl => (c + d <? clock_max) && wfb_gen cb sl_ (c + d) tl
   | OSignAtt s t _ :: tl =>
       (negb sl_ || (s <? t)) && (negb cb || (t <=? epoch_of c)) && (t <? two64) && (s <? two64)
       && wfb_gen cb sl_ c tl
@@ -341,7 +388,6 @@ Fixpoint wfb_gen (cb sl_ : bool) (c : N) (ops : list op) : bool :=
   | _ :: tl => wfb_gen cb sl_ c tl
   end.
 
-(* no two distinct positions of the list hold conflicting signatures *)
 Fixpoint no_conflict_with (g : sg) (l : list sg) : bool :=
   match l with [] => true | h :: tl => negb (conflictb g h) && no_conflict_with g tl end.
 Fixpoint pairwise_safe (l : list sg) : bool :=
